@@ -314,7 +314,14 @@ func (w *vfWorld) clientRun(st vfStep) {
 	if runs < 1 {
 		runs = 1
 	}
+	origIdentity := w.state.HostIdentity
+	defer func() { w.state.HostIdentity = origIdentity }()
 	for i := 0; i < runs; i++ {
+		if i > 0 && containsStr(st.L, "replica") {
+			// fail-over: this run is served by another replica of the deployment (same keys and data, its own host identity)
+			w.state.HostIdentity = "keymaster-replica2.sim"
+			w.fault("server.failover")
+		}
 		before := len(w.agentSim.added)
 		done := make(chan error, 1)
 		go func() { done <- kmcli.VfSetupCerts(user, home, cfg, client, vfNopLogger{}) }()
@@ -405,9 +412,23 @@ func (w *vfWorld) clientOracles(st vfStep, user, home string, tr *vfClientTransp
 	if w.agentSim.mode == "present" || w.agentSim.mode == "refuse-lifetime" {
 		if keys, err := w.agentSim.keyring.List(); err == nil {
 			seen := map[string]int{}
+			slotLabels := map[string][]string{}
+			slots := map[string]int{} // one live certificate per user and key type, whatever it is labelled
 			for _, k := range keys {
 				if strings.Contains(k.Format, "cert") {
 					seen[k.Comment]++
+					if pk, err := ssh.ParsePublicKey(k.Blob); err == nil {
+						if c, ok := pk.(*ssh.Certificate); ok && len(c.ValidPrincipals) == 1 && m_pubSSH(w, c) {
+							fam := c.Key.Type() // labels carry the key type: one live certificate per user and key type
+							slots[c.ValidPrincipals[0]+"/"+fam]++
+							slotLabels[c.ValidPrincipals[0]+"/"+fam] = append(slotLabels[c.ValidPrincipals[0]+"/"+fam], fmt.Sprintf("%q(%s)", k.Comment, c.Key.Type()))
+						}
+					}
+				}
+			}
+			for sl, n := range slots {
+				if n > 1 {
+					w.violate("C19", "duplicate-in-agent", "duplicate-in-agent:stale-certificate", fmt.Sprintf("the agent holds %d keymaster certificates for %s: an earlier one was not replaced (labels %v)", n, sl, slotLabels[sl]))
 				}
 			}
 			for c, n := range seen {
@@ -433,6 +454,14 @@ func (w *vfWorld) clientOracles(st vfStep, user, home string, tr *vfClientTransp
 	w.cell(fmt.Sprintf("C19|pref=%s|agent=%s|backends=%s|ed25519ca=%v|fault=%s|ok=%v", st.A, w.agentSim.mode, strings.Join(w.cfg.CertBackends, "+"), w.cfg.Ed25519CA, st.C, runErr == nil))
 }
 
+// is the certificate signed by one of this deployment's published SSH CA keys?
+func m_pubSSH(w *vfWorld, c *ssh.Certificate) bool {
+	if len(w.model.pubSSH) == 0 {
+		w.model.refreshPublished()
+	}
+	return w.model.pubSSH[string(c.SignatureKey.Marshal())]
+}
+
 func genClientPlan(r *rand.Rand, tier string) *vfPlan {
 	backends := pick(r, [][]string{{"password"}, {"password", "U2F"}, {"TOTP"}, {"SymantecVIP"}, {"TOTP", "U2F"}})
 	p := &vfPlan{Cfg: vfCfg{TOTP: true, VIP: true, PwBackend: "counting", CertBackends: backends, WebUIBackends: []string{"U2F", "password"},
@@ -446,7 +475,7 @@ func genClientPlan(r *rand.Rand, tier string) *vfPlan {
 	add(vfStep{Op: "client_run", User: user, A: pick(r, []string{"rsa", "p256", "p384"}),
 		B: pick(r, []string{"present", "present", "absent", "refuse-lifetime", "refuse-all", "list-error"}),
 		C: pick(r, []string{"", "", "", "firstdown", fmt.Sprintf("failat:%d", 1+r.IntN(8))}), N: int64(1 + r.IntN(2)),
-		Target: pick(r, []string{"", "", "foreign"})})
+		Target: pick(r, []string{"", "", "foreign"}), L: pick(r, [][]string{nil, nil, {"replica"}})})
 	if chance(r, 0.3) {
 		add(vfStep{Op: "advance", D: pick(r, []string{"31s", "1h"})})
 		add(vfStep{Op: "client_run", User: user, A: pick(r, []string{"rsa", "p256", "p384"}), B: pick(r, []string{"present", "absent", "refuse-all"}), N: 1, Target: pick(r, []string{"", "foreign"})})
